@@ -3,7 +3,7 @@
 EXTENDS Prims, Judge
 
 PrimOps == {"EncInt", "EncRange", "DecInt", "DecChunks", "ReadInt", "IntFromBytes", "Fixed",
-            "DateNew", "DateGet", "NewStr", "StrFromBytes", "StrGet"}
+            "DateNew", "DateGet", "NewStr", "StrFromBytes", "StrGet", "CtorTwins"}
 
 FixedWidth(fn) == CASE fn \in {"U16", "I16"} -> 2 [] fn \in {"U32", "I32"} -> 4 [] OTHER -> 8
 
@@ -91,5 +91,7 @@ JPrims(e) ==
              /\ e.r.len_ok /\ e.r.len = e["in"][1] /\ e.r.valid, "good"),
            R("C12", "str_incomplete_never_complete", ~good,
              ~e.r.safe_ok /\ ~e.r.valid /\ (Len(e["in"]) = 0 \/ ~e.r.data_ok), "bad") >>
+    [] e.op = "CtorTwins" ->
+        << R("C19", "constructor_twins_agree", TRUE, e.r.ok1 = e.r.ok2 /\ (e.r.ok1 => e.r.out1 = e.r.out2), e.fn) >>
     [] OTHER -> << >>
 =============================================================================
